@@ -2,3 +2,4 @@ pub mod core;
 pub mod gen;
 pub mod oracle;
 pub mod props;
+pub mod fuzz;
